@@ -13,10 +13,17 @@
    is FALSE on the current tree (C18_collision_with_main_refuted, open finding
    collision-with-main-unnormalised-path; fixes/C18-collision-realpath.patch makes the guard vacuous).
 
+   Round 6: the FSSPEC BRANCH of save is inside the model (Model/SaveFS.v: `save_impl k i`, k = TLocal | TFsspec).
+   For a target given as an fsspec URL naming a file (local://<dir>/x) the current code is `save_fsspec`: (a) and
+   (b) are FALSE there (the C18_fsspec_..._refuted theorems, open finding fsspec-target-unprotected, class 2 of the judge);
+   `save_fsspec_fixed` = that branch after fixes/C18-fsspec-target.patch, for which all four statements are proved
+   for every input (the C18_fsspec_fixed_ theorems), and C18_impl_fixed_meets_spec / C18_judge_fsfixed_sound cover the whole
+   implementation, whichever way the target is resolved, without a finding class.
+
    `save_old` is the order of the tree before the fix; the `..._old_order_refuted` theorems at the end are
    regression witnesses of what that order did wrong, not findings on the current tree. *)
 From JV Require Import Lib.Base Model.SaveFS Spec.SaveFSSpec Proofs.SaveFSProofs Corr.C18Judge
-                       Proofs.C18JudgeProofs.
+                       Proofs.C18JudgeProofs Proofs.SaveFsspecProofs.
 
 (* ---- (a) no silent overwrite ------------------------------------------------------------- *)
 (* Without overwrite=True every entry that existed (regular file or directory) is still there,
@@ -283,3 +290,123 @@ Theorem C18_path_content_self_truncate_old_order_refuted :
                lookup (fst (save_fixed i)) (nm 102) = Some (File 7).
 Proof. exists w_self, [(nm 102, File 0); (nm 109, File 3)]. vm_compute. repeat split. Qed.
 Print Assumptions C18_path_content_self_truncate_old_order_refuted.
+
+(* ================================================================================================
+   ROUND 6: the fsspec branch (target given as an fsspec URL that names the file, e.g. local://<dir>/x).
+
+   ---- OPEN FINDING on the current tree: fsspec-target-unprotected ---------------------------------------
+   save_fsspec is the model of the branch as it is: Path(path, mode="sw") checks "w" by opening the file for
+   writing, there is no check_overwrite, and fsspec.open(path, "w") comes before self.dump(). *)
+Definition w_fs (multifile overwrite valid : bool) : input :=
+  {| i_multifile := multifile; i_overwrite := overwrite; i_skipval := false; i_dir_ok := true; i_alias := false;
+     i_main := nm 109; i_fs := [(nm 109, File 7)]; i_valid := valid; i_full := Out 9; i_subs := [];
+     i_mainr := Out 9; i_failcall := None |}.
+
+(* (a) is false: overwrite=False, valid configuration, existing file: the save SUCCEEDS and the file is replaced *)
+Theorem C18_fsspec_silent_overwrite_refuted :
+  exists i, i_overwrite i = false /\ lookup (i_fs i) (i_main i) = Some (File 7) /\
+    save_fsspec i = ([(nm 109, File 9)], None) /\ classify_call TFsspec i = 2.
+Proof. exists (w_fs false false true). vm_compute. repeat split. Qed.
+Print Assumptions C18_fsspec_silent_overwrite_refuted.
+
+(* (b) is false: an invalid configuration: the save fails and the existing file is left EMPTY *)
+Theorem C18_fsspec_truncates_on_failure_refuted :
+  exists i, save_fsspec i = ([(nm 109, File empty_text)], Some EInvalid) /\ lookup (i_fs i) (i_main i) = Some (File 7).
+Proof. exists (w_fs false true false). vm_compute. repeat split. Qed.
+Print Assumptions C18_fsspec_truncates_on_failure_refuted.
+
+(* (b) is false even for the call with default arguments: multifile=True is refused with NotImplementedError
+   AFTER Path(path, "sw") has emptied the file *)
+Theorem C18_fsspec_multifile_refusal_truncates_refuted :
+  exists i, i_multifile i = true /\ save_fsspec i = ([(nm 109, File empty_text)], Some ENotImpl) /\
+    lookup (i_fs i) (i_main i) = Some (File 7).
+Proof. exists (w_fs true false true). vm_compute. repeat split. Qed.
+Print Assumptions C18_fsspec_multifile_refusal_truncates_refuted.
+
+(* ... and that is what EVERY failing save through this branch leaves behind (the target is not a
+   directory): the target file empty, whatever it held *)
+Theorem C18_fsspec_current_failure_empties_target :
+  forall i, is_dir (i_fs i) (i_main i) = false ->
+  forall e, snd (save_fsspec i) = Some e -> lookup (fst (save_fsspec i)) (i_main i) = Some (File empty_text).
+Proof. exact fsspec_current_empties_lemma. Qed.
+Print Assumptions C18_fsspec_current_failure_empties_target.
+
+(* ---- the branch after fixes/C18-fsspec-target.patch: all four statements, for every input -------------- *)
+Theorem C18_fsspec_fixed_failed_save_changes_nothing :
+  forall i f' e, save_fsspec_fixed i = (f', Some e) -> f' = i_fs i.
+Proof. exact fsfixed_all_or_nothing_lemma. Qed.
+Print Assumptions C18_fsspec_fixed_failed_save_changes_nothing.
+
+Theorem C18_fsspec_fixed_no_silent_overwrite :
+  forall i, i_overwrite i = false ->
+  forall n x, lookup (i_fs i) n = Some x -> lookup (fst (save_fsspec_fixed i)) n = Some x.
+Proof. exact fsfixed_no_overwrite_lemma. Qed.
+Print Assumptions C18_fsspec_fixed_no_silent_overwrite.
+
+Theorem C18_fsspec_fixed_existing_target_refused :
+  forall i, i_multifile i = false -> i_overwrite i = false -> is_file (i_fs i) (i_main i) = true ->
+            save_fsspec_fixed i = (i_fs i, Some ERefuse).
+Proof. exact fsfixed_existing_target_refused_lemma. Qed.
+Print Assumptions C18_fsspec_fixed_existing_target_refused.
+
+Theorem C18_fsspec_fixed_multifile_refused_untouched :
+  forall i, i_multifile i = true -> save_fsspec_fixed i = (i_fs i, Some ENotImpl).
+Proof. exact fsfixed_multifile_refused_lemma. Qed.
+Print Assumptions C18_fsspec_fixed_multifile_refused_untouched.
+
+Theorem C18_fsspec_fixed_only_target_touched :
+  forall i m, ~ In m (targets i) -> lookup (fst (save_fsspec_fixed i)) m = lookup (i_fs i) m.
+Proof. exact fsfixed_frame_lemma. Qed.
+Print Assumptions C18_fsspec_fixed_only_target_touched.
+
+Theorem C18_fsspec_fixed_save_then_parse :
+  forall i f', save_fsspec_fixed i = (f', None) -> reparse_ok i f' = true.
+Proof. exact fsfixed_save_then_parse_lemma. Qed.
+Print Assumptions C18_fsspec_fixed_save_then_parse.
+
+(* hypotheses are satisfiable: a successful save through the patched branch; a refused one; the three inputs on
+   which the current branch destroys the file leave it untouched *)
+Example C18_fsspec_fixed_success_example :
+  save_fsspec_fixed (w_fs false true true) = ([(nm 109, File 9)], None).
+Proof. vm_compute. reflexivity. Qed.
+Example C18_fsspec_fixed_on_the_witnesses :
+  save_fsspec_fixed (w_fs false false true) = ([(nm 109, File 7)], Some ERefuse) /\
+  save_fsspec_fixed (w_fs false true false) = ([(nm 109, File 7)], Some EInvalid) /\
+  save_fsspec_fixed (w_fs true false true) = ([(nm 109, File 7)], Some ENotImpl).
+Proof. vm_compute. repeat split. Qed.
+
+(* ---- the whole implementation, whichever way the target is resolved (after the patch) ------------------ *)
+Theorem C18_impl_fixed_failed_save_changes_nothing :
+  forall k i f' e, save_impl_fixed k i = (f', Some e) -> f' = i_fs i.
+Proof. exact impl_fixed_all_or_nothing_lemma. Qed.
+Print Assumptions C18_impl_fixed_failed_save_changes_nothing.
+
+Theorem C18_impl_fixed_no_silent_overwrite :
+  forall k i, i_overwrite i = false ->
+  forall n x, lookup (i_fs i) n = Some x -> lookup (fst (save_impl_fixed k i)) n = Some x.
+Proof. exact impl_fixed_no_overwrite_lemma. Qed.
+Print Assumptions C18_impl_fixed_no_silent_overwrite.
+
+Theorem C18_impl_fixed_meets_spec :
+  forall k i, alias_clash i = false ->
+    spec_ok (i_overwrite i) (targets i) (i_fs i) (fst (save_impl_fixed k i)) (is_some (snd (save_impl_fixed k i)))
+            (reparse_ok i (fst (save_impl_fixed k i))) = true.
+Proof. exact impl_fixed_meets_spec_lemma. Qed.
+Print Assumptions C18_impl_fixed_meets_spec.
+
+(* the judge of the current tree with the form of the path ignored (JUDGE = "judge_fixed", what bin/check uses) *)
+Theorem C18_judge_fixed_sound :
+  forall c, v_class (judge1_fixed c) = 0%N -> v_model (judge1_fixed c) = true -> v_spec (judge1_fixed c) = true.
+Proof. exact judge_fixed_sound_lemma. Qed.
+Print Assumptions C18_judge_fixed_sound.
+
+(* the judge for the patched tree (JUDGE = "judge_fsfixed"): no class but 0, and model agreement implies the spec *)
+Theorem C18_judge_fsfixed_sound :
+  forall c, v_model (judge1_fsfixed c) = true -> v_spec (judge1_fsfixed c) = true.
+Proof. exact judge_fsfixed_sound_lemma. Qed.
+Print Assumptions C18_judge_fsfixed_sound.
+
+Theorem C18_judge_fsfixed_no_class :
+  forall c, v_class (judge1_fsfixed c) = 0%N.
+Proof. exact judge_fsfixed_class_lemma. Qed.
+Print Assumptions C18_judge_fsfixed_no_class.
